@@ -28,7 +28,61 @@ def _bbox_nontrivial(line):
         if x0 <= x1 and y0 <= y1: return True
     return False
 
+def _pipe_nontrivial(line):
+    rhs = line.split(" => ", 1)[-1]
+    return bool(re.search(r"\d+:\d+:\d+:\d+|(^| ;; )\d{4,}( ;; |$)|panic|err", rhs))
+
+_PIPE_RULE = ("one line = one pipeline expression (random nesting of in-memory leaf sources, filter_zoom, filter_bbox, from_overlayed with 2-4 "
+              "sources, TilesConvertReader with flip/swap/requested pyramid; depth<=3) built from VPL text through PipelineFactory and queried "
+              "with 24 lookups / bbox streams (full, random, both empty encodings, beyond coverage, coordinates outside the level) / coverage "
+              "levels; the same expression and queries are evaluated on the extracted Coq model; the harness also compares every answer with "
+              "the reference tile map of the expression (layer S). distinct = distinct lines; non-trivial = at least one answer carries a tile "
+              "or a failure")
+_PIPE_NOTE = ("Trusted: Coq kernel, hand model coq/Model/Pipeline.v (payloads are opaque ids; streams compared as maps), scraped converter facts, "
+              "extraction + OCaml driver, harness (MemSource with the default lookup-loop stream). Container readers' own optimised streams "
+              "(versatiles chunked reads, mbtiles SQL) are exercised at spec level by C01/C16 checks, not modelled here. Print Assumptions: closed.")
+
 PROPS = {
+    "C02": {
+        "cmd": "c02",
+        "theorems": ["C02_gen_relations", "C02_stream_equals_lookups", "C02_lookup_total", "C02_operators_preserve"],
+        "nontrivial": _pipe_nontrivial, "rule": _PIPE_RULE,
+        "level_text": "Proved in Coq by structural induction over pipeline expressions of any depth and width: for every well-formed box (both empty encodings, boxes beyond coverage) the stream of leaf / filter_zoom / filter_bbox / from_overlayed (32-grid slot filling, any number of sources) / TilesConvertReader terminates without failure, has no duplicate coordinate and contains exactly the single-tile lookups inside the box. Each operator is proved to preserve the property given that its children have it. Tied to the code by running random pipelines built through PipelineFactory on a multi-thread runtime and on the extracted model.",
+        "level_note": _PIPE_NOTE,
+        "partial": "the parallel stream stages are covered by C14; file-backed readers' optimised streams are tested end-to-end (C01/C16), their algorithms are not in this model",
+    },
+    "C03": {
+        "cmd": "c03",
+        "theorems": ["C03_coverage_sound", "C03_include_coord_fold_exact", "C03_overlay_union"],
+        "nontrivial": _pipe_nontrivial, "rule": _PIPE_RULE,
+        "level_text": "Proved in Coq: for every pipeline expression a tile returned by a lookup lies inside the advertised level box (soundness preserved by every operator, structural induction); folding include_coord over stored coordinates (tar/directory/PMTiles coverage) yields a well-formed box containing every stored tile; overlay coverage contains every source's coverage. Correspondence: coverage boxes of random pipelines compared between implementation and model, and checked against the reference tile map.",
+        "level_note": _PIPE_NOTE + " MBTiles MIN/MAX coverage with the three-column row refinement and the versatiles block-box union are checked end-to-end by the container checks.",
+        "partial": "MBTiles SQL evaluation and per-format coverage derivation from files are tested (C01/C16 harness), not proved",
+    },
+    "C06": {
+        "cmd": "c06",
+        "theorems": ["C06_gen_relations", "C06_transform_inverse", "C06_lookup", "C06_lookup_stream_coverage_agree"],
+        "nontrivial": _pipe_nontrivial, "rule": _PIPE_RULE,
+        "level_text": "Proved in Coq for all four flag combinations, any requested pyramid and any source: the converter's lookup at c returns the source tile at the pre-image T^-1(c) (flip first, then swap) exactly when c is inside its level and inside the requested selection; lookup, stream and advertised coverage agree (so `serve` and `convert` expose the same mapping); T and T^-1 are mutually inverse on valid coordinates; no panic. The three facts about converter.rs the proof relies on (inverse order in get_tile_data, level guard, selection guard) are regenerated from the source on every run; the pre-fix behaviours are kept as refuted lemmas with witnesses.",
+        "level_note": _PIPE_NOTE + " CLI option parsing (convert.rs get_bbox_pyramid, add_border, from_geo) is covered by C15 theorems (add_border, from_geo model) and spec-level runs.",
+        "partial": "recompression inside the converter is C04; geographic box to tile box conversion is C15",
+    },
+    "C08": {
+        "cmd": "c08",
+        "theorems": ["C08_gen_relations", "C08_lookup_first_some", "C08_stream_lookup_coverage", "C08_cell", "C08_coverage_union"],
+        "nontrivial": _pipe_nontrivial, "rule": _PIPE_RULE,
+        "level_text": "Proved in Coq for any number of sources with arbitrary coverages: lookup = first source in list order that has a tile; the 32x32-grid slot-filling stream (bounding box of still-missing slots per source, fill only empty slots, index arithmetic) returns exactly those tiles once each, for every box, without panic, given children that satisfy C02/C03; coverage contains the union. Correspondence on random overlays (2-4 sources, nested in filters/converters, disjoint/nested/overlapping coverages).",
+        "level_note": _PIPE_NOTE + " Mixed source compressions (recompress to the declared compression) are exercised by the C04 check.",
+        "partial": "recompression of overlay results is C04's concern; sources are uncompressed in this model",
+    },
+    "C09": {
+        "cmd": "c09",
+        "theorems": ["C09_zoom", "C09_bbox", "C09_chain", "C09_chain_mixed", "C09_stream"],
+        "nontrivial": _pipe_nontrivial, "rule": _PIPE_RULE + "; plus build-time argument cases (valid degenerate boxes on/off tile edges, reversed, out-of-range, NaN, infinite)",
+        "level_text": "Proved in Coq for every min/max combination (absent, min>max, beyond the range) and every per-level tile box: the filter returns the source's tile unchanged exactly inside the filter and nothing otherwise; chains are intersections; streams agree with lookups; the explicit hypothesis is that the child's coverage is sound (C03). Build-time handling of invalid geographic arguments (error, never panic; valid degenerate boxes accepted with non-empty tile boxes) is checked against the implementation at spec level.",
+        "level_note": _PIPE_NOTE + " from_geo itself (f64, libm) is outside this model: the per-level tile boxes of a geographic bbox are taken from the implementation and handed to the model.",
+        "partial": "argument validation (GeoBBox::check, VPLDecode extraction) is tested at spec level, not modelled",
+    },
     "C15": {
         "cmd": "c15",
         "theorems": ["C15_gen_index_is_64bit", "C15_gen_border_saturates", "C15_empty", "C15_contains", "C15_intersect",
